@@ -55,9 +55,12 @@ def key_matches(pattern, key):
 class Campaign:
     """one harness run of a cs module against one library config"""
 
-    def __init__(self, module, libcfg="plain", cases=None, extra=(), ldflags=()):
+    def __init__(self, module, libcfg="plain", cases=None, extra=(), ldflags=(), keymap=None):
+        """keymap=(regex, prop): the campaign of another property's module contributes to this check:
+        only violation keys matching regex are kept and their property prefix is rewritten to prop"""
         self.module, self.libcfg, self.cases, self.extra, self.ldflags = module, libcfg, cases, list(extra), tuple(ldflags)
         self.summary, self.viols = None, []
+        self.keymap = keymap
 
     def run(self, tier, outdir):
         h = hbuild.build_harness(self.libcfg, self.ldflags)
@@ -85,6 +88,19 @@ class Campaign:
                     except json.JSONDecodeError:
                         pass
         self.outdir = od
+        if self.keymap:
+            rx, prop = re.compile(self.keymap[0]), self.keymap[1]
+            def conv(k):
+                return prop + k[k.index(":"):] if ":" in k else k
+            self.viols = [dict(v, key=conv(v["key"])) for v in self.viols if rx.search(v["key"])]
+            labs = {}
+            for k, n in self.summary["labels"].items():
+                if k.startswith("VIOL "):
+                    if rx.search(k[5:]):
+                        labs["VIOL " + conv(k[5:])] = n
+                else:
+                    labs[k] = n
+            self.summary["labels"] = labs
         return self
 
 
@@ -181,6 +197,8 @@ def triage(prop, campaigns, dev=False, max_new=int(os.environ.get('VERIF_MAX_NEW
         ok = 0
         for _ in range(3):
             code, rkey, _txt = replay_case(c.harness, c.module, out, c.libcfg)
+            if code == 1 and rkey and c.keymap and ":" in rkey:
+                rkey = c.keymap[1] + rkey[rkey.index(":"):]
             if code == 1 and rkey == key:
                 ok += 1
         if ok == 0 and not key.startswith(prop + ":crash"):
